@@ -300,6 +300,11 @@ def replay_one_(args):
             t0 = w.clock.now
             written0, nread0, open0 = len(w.written), w.nread, w.peer_open
             w.quiet = tail          # the completion calls are judged by the contract clauses only
+            if tail and transport == 'socket':
+                # the application changes its socket's timeout between two reads (after the object was built): what a read
+                # leaves behind is the setting it found at that moment, not the one of construction time
+                w.user_timeout = 7.5 if w.user_timeout is None else (None if w.user_timeout == 7.5 else 7.5)
+                w.a.settimeout(w.user_timeout)
             w.log(e='call', size=size, tmo=tmo)
             w.active = True
             try:
